@@ -9,7 +9,7 @@ ID = "C01"
 LEVEL = "exploration"
 RULE = (
     "Cases = validity pattern x accepted (min,max,sil,init_min,init_max_silence,mode) "
-    "x frame kind (unique objects / characters / bytes) x delivery mode (list / generator / "
+    "x frame kind (unique objects / characters / bytes / the falsy-or-truthy ints 0 and 1 / objects with a numpy-bool validator) x delivery mode (list / generator / "
     "callback), a quarter of the generated cases on a tokenizer that was used before on another stream. Exhaustive part: all patterns up to length L x all accepted tuples with "
     "max_length<=M and the initial-phase settings listed in 'exhaustive_part'; generated part: "
     "Hypothesis streams (run-length construction biased to the parameter boundaries, or iid). "
@@ -17,7 +17,7 @@ RULE = (
     "frames[k] IS (identity, for unique-object frames; == otherwise) stream[start+k], "
     "start_i > end_{i-1}. Non-trivial = at least one token and at least 3 runs in the pattern."
 )
-MUST_HIT = ["cut_in_silence_with_drop", "init_candidate_abandoned", "kind_obj", "deliv_cb", "deliv_gen", "reused_tokenizer"]
+MUST_HIT = ["cut_in_silence_with_drop", "init_candidate_abandoned", "kind_obj", "kind_int", "deliv_cb", "deliv_gen", "reused_tokenizer"]
 ASSUMPTIONS = ["harness sources hand out frames in stream order (vf/tok.py)"]
 
 BOUNDS = {
